@@ -161,7 +161,7 @@ def make_cases(ctx, vocab):
 
 def describe(c):
     return {"string": c["s"], "kw": c["kw"], "settings": c["settings"], "b1": c["b1"], "b2": c["b2"], "REQUIRE_PARTS": c["R"],
-            "runs": "outN=(strict off,b1) outS=(STRICT_PARSING,b1) outS2=(STRICT_PARSING,b2) outR=(REQUIRE_PARTS,b1) outR2=(REQUIRE_PARTS,b2)"}
+            "runs": "outN=(strict off,b1) outS=(STRICT_PARSING,b1) outS2=(STRICT_PARSING,b2) outR=(REQUIRE_PARTS,b1) outR2=(REQUIRE_PARTS,b2) outSR=(both,b1) outSR2=(both,b2)"}
 
 
 def export_names(_req=None):
